@@ -60,6 +60,7 @@ PROPS = {
         "harnesses": [
             {"pkg": "interpreter", "name": "VH_C19_Step", "quick": {"params": {"D": 2, "K": 1, "C": 1, "U": 4}}, "thorough": {"params": {"D": 3, "K": 2, "C": 2, "U": 6}}},
             {"pkg": "interpreter", "name": "VH_C19_Execute", "quick": {"params": {"L": 1}}, "thorough": {"params": {"L": 2}}},
+            {"pkg": "interpreter", "name": "VH_C19_P2SH", "quick": {"params": {"R": 1}}, "thorough": {"params": {"R": 1}}},
         ],
         "assumptions": [],
     },
